@@ -300,6 +300,55 @@ Proof.
   - inversion H; subst. destruct He.
 Qed.
 
+(* a node work item writes to nodes only: no ClusterCIDR update or creation among its effects *)
+Definition is_cc_write (e : effect) : bool := match e with FxUpdateCC _ _ | FxCreateCC _ _ => true | _ => false end.
+
+Lemma update_no_cc_write canp apisame m name cs p reread outs m' r fx :
+  update_cidrs_allocation canp apisame m name cs p reread outs = (m', r, fx) -> forall e, In e fx -> is_cc_write e = false.
+Proof.
+  unfold update_cidrs_allocation. intros H e He.
+  destruct reread as [n|].
+  2:{ destruct (release_in m p cs) as [m1 r1]. inversion H; subst. destruct He. }
+  destruct ((length (n_cidrs n) =? length cs)%nat && same_cidrs (n_cidrs n) cs)%bool.
+  { destruct (get_entry m p); inversion H; subst; destruct He. }
+  destruct (n_cidrs n) as [|c0 cs0] eqn:En.
+  2:{ destruct (release_in m p cs) as [m1 r1]. inversion H; subst. destruct He. }
+  pose proof (patch_loop_patches (canp cs) name cs outs 3) as Hpl.
+  destruct (patch_loop (canp cs) name cs outs 3) as [ok fxp] eqn:Epl. cbn [snd] in Hpl.
+  assert (Hin : In e fxp \/ is_cc_write e = false).
+  { destruct ok.
+    - destruct (get_entry m p); inversion H; subst; left; exact He.
+    - repeat match type of H with
+             | context [if ?b then _ else _] => destruct b
+             | context [match nth_error ?l ?k with _ => _ end] => destruct (nth_error l k) as [[]|]
+             | context [match get_entry ?a ?b with _ => _ end] => destruct (get_entry a b)
+             | context [let '(_, _) := release_in ?a ?b ?c in _] => destruct (release_in a b c)
+             end;
+      inversion H; subst; clear H;
+      repeat (apply in_app_or in He; destruct He as [He|He]); try (left; exact He);
+      repeat (destruct He as [<-|He]; [right; reflexivity|]); try destruct He. }
+  destruct Hin as [Hin|Hin]; [|exact Hin]. destruct (Hpl e Hin) as (o & ->). reflexivity.
+Qed.
+
+Theorem sync_node_no_cc_write po lab svcs canp apisame held m cached reread outs m' r fx :
+  sync_node po lab svcs canp apisame held m cached reread outs = (m', r, fx) -> forall e, In e fx -> is_cc_write e = false.
+Proof.
+  unfold sync_node. intros H e He.
+  destruct cached as [node|]; [|inversion H; subst; destruct He].
+  destruct (n_deleting node).
+  { destruct (release_cidr svcs m node) as [m1 r1]. inversion H; subst. destruct He. }
+  unfold allocate_or_occupy in H.
+  destruct (n_cidrs node) as [|c0 cs0] eqn:En.
+  2:{ destruct reread; [destruct (occupy_cidrs po lab m node) as [m1 r1]|]; inversion H; subst; destruct He. }
+  destruct (prioritized_cidrs po lab held m node) as [m1 rp] eqn:Ep.
+  destruct rp as [[cs1 p1]|er|].
+  - destruct cs1 as [|c1 cs1'].
+    + inversion H; subst. destruct He as [<-|[]]. reflexivity.
+    + eapply update_no_cc_write; eassumption.
+  - inversion H; subst. destruct He as [<-|[]]. reflexivity.
+  - inversion H; subst. destruct He.
+Qed.
+
 (* ---------- C05 / C11: a refusal is reported ---------- *)
 Theorem refusal_is_reported po lab canp apisame held m node reread outs m' e fx :
   n_cidrs node = [] ->
